@@ -659,16 +659,18 @@ d4 1 : o 1 0 ; t 2 0 ; 1 2 -1 0 :: add 2
 d4 1 : o 1 0 ; t 2 0 ; 1 2 -1 0 :: add -1 :: rmv -1
 # K22 the stored clause list still contains an undone edit
 cnf 2 : 1 2 :: add 1 -2 :: rmv 1 -2 :: add -1 -2
-# K23 two different clauses removed in one edit
+# F14 (was K23) two different clauses removed in one edit: holds since the repair
 cnf 2 : -1 2 ; -1 -2 :: rmv -1 2 ; rmv -2 -1
 # K24 sub-DAG replacement keeps a literal forced that the removed clause forced
 cnf 3 : -2 3 ; 1 -2 -3 ; 1 2 3 ; 2 -3 :: rmv 3 -2
-# K25 partial inverse answered from the undo cache
+# F15 (was K25) partial inverse: no longer answered from the undo cache
 cnf 2 : 1 ; 2 :: add 1 3 ; rmv 1 :: rmv 1 3
-# K26 unit add + removal: the removal is dropped
+# F16 (was K26) unit add + removal: general path, the removal is applied
 cnf 2 : -1 :: add 2 ; rmv -1
-# K27 clause added to a CNF-loaded model without stored clauses: ignored
+# K27 clause added to a CNF-loaded model without stored clauses: ignored (also a unit clause that
+# comes with a removal: general path since F16)
 cnf 2 : :: add 1 2
+cnf 3 : :: rmv 3 -2 ; add 3
 # K28 unconstrained feature mentioned by a subsumed clause + sub-DAG replacement
 cnf 2 : 2 -1 ; 1 -2 :: add 3 2 -1 :: add 1 -2
 # K29 unit clause over a new variable answered by sub-DAG replacement
@@ -683,8 +685,17 @@ cnf 3 : -1 2 ; -1 -2 -3 :: add 1 :: add -3 :: rmv -3
 cnf 4 : -1 3 ; 1 -2 -3 :: rmv -1 3 :: add 4 :: rmv 1 -3 -2 :: add 4
 # K33 panic in get_literals after an Undo
 cnf 3 : -1 2 3 ; -3 ; -1 -2 -3 :: add 1 3 2 :: rmv 1 3 2 :: add 3 -2
-# K34 inverse of an older edit after a unit edit
+# F17 (was K34) inverse of an older edit after a unit edit: not answered Undo any more
 cnf 3 : -1 3 ; 1 2 3 :: add 2 3 :: add -1 :: rmv 2 3
+# K37 removal on the unit-propagated stored list (K8) that ends in a panic: the stale derived unit 1
+# contradicts the added unit clause, the stored list is unsatisfiable although the formula is not
+cnf 2 : 2 ; 1 -2 :: rmv 1 -2 ; add -1
+cnf 2 : 2 ; 1 -2 :: rmv 1 -2 ; add -1 ; add 2
+# K38 Recompile adjusts the stored clause list twice: a clause shortened to a removed clause is lost
+# (second history: two added clauses, general path also before F16)
+cnf 2 : -1 -2 :: rmv -1 ; add 2
+cnf 2 : -1 -2 :: rmv -1 ; add 2 ; add 1 2
+cnf 3 : -1 -2 -3 ; -1 -2 :: rmv -1 -2 ; add 3
 # controls that hold: unit edit and its effect, recompile, exact inverse, tautology, duplicate
 cnf 3 : 1 2 ; -1 3 :: add 2
 cnf 3 : 1 2 ; -1 3 :: add -2 -3 :: rmv -2 -3
